@@ -157,10 +157,41 @@ func (w *jsonWorld) Gen(seed uint64, tier string) *Plan {
 		if r.P(1, 3) {
 			doc = reencode(r, doc)
 		}
-		for o := 0; o <= len(doc); o++ {
-			b := append([]byte(nil), doc[:o]...)
+		// one of three enumerations over the snapshot: every truncation offset (F1), every bit of every
+		// byte flipped (F2), or every byte overwritten by one structural character (F3)
+		var variants [][]byte
+		var kind string
+		switch r.Intn(3) {
+		case 0:
+			kind = "F1-torn-write"
+			for o := 0; o <= len(doc); o++ {
+				variants = append(variants, append([]byte(nil), doc[:o]...))
+			}
+		case 1:
+			kind = "F2-bit-flip"
+			if len(doc) > 48 {
+				doc = doc[:48]
+			}
+			for o := 0; o < len(doc); o++ {
+				for bit := 0; bit < 8; bit++ {
+					b := append([]byte(nil), doc...)
+					b[o] ^= 1 << uint(bit)
+					variants = append(variants, b)
+				}
+			}
+		default:
+			kind = "F3-structural-byte"
+			ch := structuralBytes[r.Intn(len(structuralBytes))]
+			for o := 0; o < len(doc); o++ {
+				b := append([]byte(nil), doc...)
+				b[o] = ch
+				variants = append(variants, b)
+			}
+		}
+		p.Cfg.Mode = "sweep:" + kind
+		for o, b := range variants {
 			p.Ops = append(p.Ops, Op{ID: id, N: "Load", C: nClients, A: []int{r.Intn(3)}, B: b, T: string(b)})
-			p.Faults = append(p.Faults, Fault{Kind: "F1-torn-write", At: id, A: []int{o}})
+			p.Faults = append(p.Faults, Fault{Kind: kind, At: id, A: []int{o}})
 			s.LoadModel(b)
 			id++
 			if r.P(1, 8) {
